@@ -1,7 +1,9 @@
 #!/usr/bin/env python3
 """Re-run every check against every seeded defect kept in /verif/seeded (after an engine or rule change).
 
-usage: regress.py [-j N] [ids...]        (default: all seeds, 3 at a time)
+usage: regress.py [-j N] [--subset] [ids...]        (default: all seeds, all checks, 3 at a time)
+       --subset: per seed only the check of the targeted property, the checks recorded as firing, and the
+                 obligation-based checks most sensitive to engine precision (C03, C06, C11)
 
 Each seed is applied to its own scratch copy of /repo under /var/tmp (never to /repo), all checks are
 run against the copy (CATSA_REPO), the copy is removed.  meta.json of the seed is refreshed with the
@@ -17,6 +19,9 @@ import time
 from concurrent.futures import ThreadPoolExecutor
 
 SEEDED = '/verif/seeded'
+
+
+SUBSET = False
 
 
 def run_seed(sid, jobs):
@@ -36,8 +41,12 @@ def run_seed(sid, jobs):
         m = json.load(open('/verif/MANIFEST.json'))
         env = dict(os.environ, CATSA_REPO=scratch, CATSA_EVID=scratch + '/evid', CATSA_CACHE=scratch + '/cache', CATSA_JOBS=str(jobs))
         res = {}
+        meta = json.load(open(os.path.join(sd, 'meta.json')))
+        wanted = set([meta['breaks_property'], 'C03', 'C06', 'C11']) | set(meta.get('checks_that_fire', []))
         for c in m['checks']:
             pid = c['property_id']
+            if SUBSET and pid not in wanted:
+                continue
             t = time.time()
             r = subprocess.run(['/verif/check', pid], capture_output=True, text=True, env=env, timeout=7200)
             lines = [l for l in r.stdout.splitlines() if l.strip()]
@@ -53,6 +62,10 @@ def main():
     if args and args[0] == '-j':
         par = int(args[1])
         args = args[2:]
+    global SUBSET
+    if args and args[0] == '--subset':
+        SUBSET = True
+        args = args[1:]
     ids = args or sorted(d for d in os.listdir(SEEDED) if os.path.exists(os.path.join(SEEDED, d, 'meta.json')))
     jobs = max(2, 16 // par)
     diffs = []
@@ -67,15 +80,22 @@ def main():
             fired = sorted(p for p, v in res.items() if v['rc'] == 1)
             broken = sorted(p for p, v in res.items() if v['rc'] not in (0, 1))
             before = meta.get('checks_that_fire', [])
+            if SUBSET:
+                before = [p for p in before if p in res]
             lost = sorted(set(before) - set(fired))
             new = sorted(set(fired) - set(before))
             print('%s target=%s fired=%s lost=%s new=%s broken=%s' % (sid, meta['breaks_property'], fired, lost, new, broken), flush=True)
             if lost or new or broken:
                 diffs.append((sid, lost, new, broken))
+            if SUBSET:
+                # checks not re-run keep their recorded verdict
+                fired = sorted(set(fired) | set(p for p in meta.get('checks_that_fire', []) if p not in res))
             meta['checks_that_fire'] = fired
             meta['checks_analysis_broken'] = broken
             meta['target_check_fires'] = meta['breaks_property'] in fired
-            meta['first_report'] = {p: res[p]['first'][:2] for p in fired + broken}
+            fr = dict(meta.get('first_report', {}))
+            fr.update({p: res[p]['first'][:2] for p in fired + broken if p in res})
+            meta['first_report'] = {p: v for p, v in fr.items() if p in fired + broken}
             json.dump(meta, open(mp, 'w'), indent=1)
     print('--- %d seeds, %d with differences' % (len(ids), len(diffs)))
     for d in diffs:
